@@ -32,6 +32,7 @@ Proof.
     - eapply ev_book; eauto.
     - now apply ev_leave.
     - now apply ev_advance.
+    - now apply ev_cancelroot.
     - now apply ev_timer.
     - now apply ev_waitexited.
     - eapply ev_wsect; eauto.
